@@ -54,8 +54,8 @@ impl CheckFileResult {
         };
         self.is_failure()
             && !baseline.is_some_and(|b| {
-                let key = crate::output::path::path_key(&check_result.path().to_string_lossy());
-                b.contains(&key)
+                super::check_baseline_ops::baseline_key(check_result.path())
+                    .is_some_and(|key| b.contains(&key))
             })
     }
 }
